@@ -46,20 +46,22 @@ def declare_io(E):
     TOTAL = "(old(%sremainder) + old(ghost('rx')))" % M
     CUR = "(%sremainder + ghost('rx'))" % M
     E.contract(P + "read_all", params={"n": "int", "check_rekey": "bool"},
-               requires={"n_nonnegative": "n >= 0"},
+               # (a negative count - a nonsensical length field from the peer - reads nothing when nothing was over-read)
+               requires={"n_nonnegative_or_nothing_over_read": "n >= 0 or len(%sremainder) == 0" % M},
                # behaviour seen by callers (definitional): the next n bytes; what was over-read earlier goes first
-               cases=[dict(name="next_n_bytes", when="True", result="%s[:n]" % CUR,
-                           post={M + "remainder": "%sremainder[n:]" % M})],
-               ghost={"rx": "ghost('rx')[n - min(n, len(old(%sremainder))):]" % M},
+               cases=[dict(name="next_n_bytes", when="n >= 0", result="%s[:n]" % CUR,
+                           post={M + "remainder": "%sremainder[n:]" % M}),
+                      dict(name="negative_count_reads_nothing", when="n < 0", result="b''", post={M + "remainder": "%sremainder" % M})],
+               ghost={"rx": "ghost('rx')[(n - min(n, len(old(%sremainder)))) if n >= 0 else 0:]" % M},
                ensures={
-                   "returns_exactly_n_bytes": "len(result) == n",
-                   "they_are_the_next_bytes_of_the_stream": "result == %s[:n]" % TOTAL,
-                   "over_read_bytes_are_used_first": "%sremainder == old(%sremainder)[n:]" % (M, M),
+                   "returns_exactly_n_bytes": "len(result) == (n if n >= 0 else 0)",
+                   "they_are_the_next_bytes_of_the_stream": "result == %s[:(n if n >= 0 else 0)]" % TOTAL,
+                   "over_read_bytes_are_used_first": "implies(n >= 0, %sremainder == old(%sremainder)[n:])" % (M, M),
                    "rest_of_the_stream_still_pending":
-                       "ghost('rx') == old(ghost('rx'))[n - min(n, len(old(%sremainder))):]" % M,
+                       "ghost('rx') == old(ghost('rx'))[(n - min(n, len(old(%sremainder)))) if n >= 0 else 0:]" % M,
                },
                # consumed so far = old(n) - n bytes: `out` is that prefix of the stream, the socket still holds the rest
-               loops={0: dict(inv=["0 <= n and n <= old(n) and old(n) - n <= len(%s)" % TOTAL,
+               loops={0: dict(inv=["(0 <= n and n <= old(n) and old(n) - n <= len(%s)) or (n < 0 and n == old(n))" % TOTAL,
                                    "n == 0 or len(%sremainder) == 0" % M],
                               defs={"out": "%s[:old(n) - n]" % TOTAL,
                                     "ghost:rx": "%s[old(n) - n:][len(%sremainder):]" % (TOTAL, M)},
@@ -91,4 +93,7 @@ def declare_cteq(E, own=True):
                loops={0: dict(inv=["res >= 0",
                                    "(res == 0) == forall(lambda j: implies(0 <= j and j < _idx0, at(a, j) == at(b, j)))"],
                               vars={"res": "int"})},
+               # monitor for callers (C02): what was compared, and with which outcome
+               ghost={"cteq_calls": "ghost('cteq_calls') + 1", "cteq_a": "a", "cteq_b": "b", "cteq_result": "result"},
                returns="bool", modifies=[], raises={})
+    E.declare_ghost(cteq_calls="int", cteq_a="bytes", cteq_b="bytes", cteq_result="bool")
